@@ -1,12 +1,16 @@
 #!/bin/bash
-# Runs the pinned test suite of /repo (the BASELINE.json command) and prints pass/fail counts.
+# Runs the pinned test suite of /repo (the BASELINE.json command); exits 0 only if
+# exactly the 78 baseline tests pass and only the known always-failing test fails.
 for m in $(cat /w/out/gomods.txt); do MF=$(cd /repo/$m && . /w/out/goenv.sh && gomodflag); (cd /repo/$m && go test $MF -json -vet=off -count=1 -timeout 25m ./... 2>&1 | python3 -c "
 import sys,json
-p=f=0
+p=0; fails=[]
 for l in sys.stdin:
     try: e=json.loads(l)
     except: continue
     if e.get('Test') and e['Action']=='pass': p+=1
-    if e.get('Test') and e['Action']=='fail': f+=1; print('FAIL',e['Package'],e['Test'])
-print('passed',p,'failed',f)
-"); done
+    if e.get('Test') and e['Action']=='fail': fails.append(e['Package']+'::'+e['Test'])
+print('passed',p,'failed',len(fails),fails)
+ok = p==78 and fails==['github.com/goccmack/gocc/internal/test/t2::TestEmptyKeyword']
+print('BASELINE', 'OK' if ok else 'BROKEN')
+sys.exit(0 if ok else 1)
+") || exit 1; done
